@@ -1,6 +1,6 @@
 """C18 — Fragment splitting helpers respect bracket and quote nesting."""
 import itertools
-from pyvc.api import contract, lemma, record, Loop
+from pyvc.api import contract, lemma, record, native, Loop
 import specs.brackets  # noqa: F401
 
 LEVEL = 'proof'
@@ -176,6 +176,7 @@ def lemma_label_value(p: str, i: int):
 
 
 contract(DECO, 'DecoratorHelper._parse', 'C18',
+	replay='_deco_call',
 	lets={'P': "bs_spec(decorator[decorator.find('(') + 1:len(decorator) - 1], ',')"},
 	raises={},
 	ensures=[
@@ -257,6 +258,7 @@ def gen_deco(rnd, tier):
 		yield {'self': None, 'decorator': rnd.choice(['Embed.alias', 'a.b', 'x']) + rnd.choice(['', f'({args})'])}
 
 
+@native
 def _deco_call(self=None, decorator=''):
 	from rogw.tranp.view.helper.decorator import DecoratorHelper
 	return DecoratorHelper(decorator)._parse(decorator)
